@@ -240,6 +240,7 @@ type expect struct {
 	pongs    [][]byte
 	terminal string // proto | close | limit | eof
 	either   string // second acceptable terminal ("" = none)
+	third    string // third acceptable terminal ("" = none)
 	code     int    // close code echoed (terminal close)
 	topBit   bool
 	at       int    // frame index of the terminal
@@ -298,10 +299,16 @@ func model(frames []sframe, limit int64, cut int, streamLen int) (ex expect, ok 
 			ex.terminal, ex.why = "proto", viol
 			if cut < f.hdrEnd {
 				ex.either = "eof"
-			} else if viol == "64-bit length with the most significant bit set" {
+			}
+			if viol == "64-bit length with the most significant bit set" {
 				// the statement only says it is never accepted as a frame: a
 				// limit error is as good as the protocol error
-				ex.either, ex.topBit = "limit", true
+				ex.topBit = true
+				if ex.either == "" {
+					ex.either = "limit"
+				} else {
+					ex.third = "limit"
+				}
 			}
 			return ex, true
 		}
@@ -551,7 +558,7 @@ func run(p *kernel.Plan) (res *kernel.Result) {
 		return res.Fail("C14/no-terminal-error", "reading never failed; %s", ctx())
 	}
 	cls := classify(rerr)
-	if cls != ex.terminal && cls != ex.either {
+	if cls != ex.terminal && cls != ex.either && cls != ex.third {
 		return res.Fail("C14/terminal-"+ex.terminal+"-got-"+cls, "reading ended with %q (%s); %s", rerr, cls, ctx())
 	}
 	if cls == "close" {
